@@ -573,10 +573,11 @@ class RacePM(PoolManager):
         return p
 
 
-RORIG = {"a": "http://a/", "b": "http://b/", "c": "http://c:81/"}
+RORIG = {"a": "http://a/", "b": "http://b/", "c": "http://c:81/", "A": "HTTP://A:80/"}     # "A": another spelling of origin a
+CANON = {"A": "a"}
 W_OPS = [("lookup", "a"), ("request", "a")]
 X_OPS = [[("lookup", "a")], [("lookup", "b")], [("clear", None)], [("lookup", "b"), ("lookup", "c")], [("request", "a")],
-         [("lookup", "b"), ("clear", None)]]
+         [("lookup", "b"), ("clear", None)], [("lookup", "A")], [("request", "A")]]
 PRE = [(), ("a",), ("b",), ("b", "a"), ("a", "b")]
 
 
@@ -595,6 +596,7 @@ def _ref_run(num_pools, pre, order):
             cache.pop(0)                # (evictions while building the pre-state are not part of the schedule)
     results = {}
     for opid, kind, key in order:
+        key = CANON.get(key, key)
         if kind == "clear":
             disposed.extend(lbl for _, lbl in cache)
             cache = []
@@ -830,11 +832,11 @@ def JOBS(tier):
                      "timeout": t, "path_timeout": 60})
         jobs.append({"func": "c17_manager", "part": {"o1": o1, "length": 4, "lookup": True},
                      "timeout": t, "path_timeout": 60})
-    xticks = [5, 9, 4, 18, 5, 13]          # scheduling points of each X script when run alone (measured; +2 margin below)
+    xticks = [10, 10, 4, 19, 10, 14, 10, 10]    # scheduling points of each X script when it runs first (a miss: 9-10; measured)
     for num_pools in (1, 2):
         for w in range(len(W_OPS)):
             for x in range(len(X_OPS)):
-                part = {"num_pools": num_pools, "w": w, "x": x, "wmax": 10 if quick else 12, "xmax": xticks[x] + (1 if quick else 3),
+                part = {"num_pools": num_pools, "w": w, "x": x, "wmax": 10 if quick else 12, "xmax": xticks[x] + (0 if quick else 2),
                         "pre": [0, 1, 3] if quick else [0, 1, 2, 3, 4]}
                 part["n"] = space_size(race_dims(part))
                 jobs.append({"func": "c17_race", "part": part, "timeout": t, "path_timeout": 120, "samples": 1})
